@@ -4,7 +4,7 @@ property theorems in `Props/C06.lean` are assembled from these.
 -/
 import TraitsVerif.Lemmas.MapTrait
 set_option linter.unusedSectionVars false
-namespace TraitsVerif.Model
+namespace TraitsVerif.Model.Map
 open TraitsVerif TraitsVerif.Py
 open TraitsVerif.Py.Dict
 variable {K V : Type} [DecidableEq K]
@@ -367,4 +367,4 @@ theorem step_valid_preserved (kv : Callback K K) (vv : Callback V V) (d : Dict K
     simp only [TraitDict.step] at h
     split at h <;> cases h <;> simp
 
-end TraitsVerif.Model
+end TraitsVerif.Model.Map
